@@ -2,6 +2,8 @@
 import itertools
 import random
 
+from vlib.gens import grid
+
 ALPHA = [ord(c) for c in "a1:/?#@[].+% \t\nv"]   # the alphabet of spec/MC_Split.tla
 FIELDS = ["str", "val", "scheme", "raw_authority", "raw_path", "raw_query_string", "raw_fragment",
           "raw_user", "raw_password", "raw_host", "explicit_port"]
@@ -26,7 +28,26 @@ def gen(params):
                 "@", "[", "]", "[::1]", "[v1.x]", "[fe80::1%25eth0]", ".", "..", "%", "%2F", "%2e", "%41", " ", "\t", "\n",
                 "\r", "\x00", "\x1f", "é", "€", "\U0001F600", "80", "0", "65535", "65536", ":80", ":443", "u", "p", "u:p@",
                 "host", "Host.COM", "1.2.3.4", "a=1&b=2", "+", ";", "=", "&", "\\", "|", "^"]
+        # every C0 control, DEL, C1 NEL, no-break space, Unicode line/paragraph separators, BOM
+        toks += [chr(c) for c in range(0x21)] + ["\x7f", "\x85", "\xa0", "\u2028", "\u2029", "\ufeff", "\u3000"]
         for _ in range(params["n"]):
             k = rnd.choice((2, 3, 4, 5, 6, 8, 10))
             s = "".join(rnd.choice(toks) for _ in range(k))
+            yield prog([ord(c) for c in s], rnd.random() < 0.5)
+    elif mode == "grid":
+        rnd = random.Random(params.get("seed", 0))
+        for s in grid.tail_product():
+            yield prog([ord(c) for c in s], False)
+            yield prog([ord(c) for c in s], True)
+        step = params.get("auth_step", 7)
+        for k, s in enumerate(grid.authority_product()):
+            if k % step == params.get("seed", 0) % step:
+                yield prog([ord(c) for c in s], k % 2 == 0)
+        ws = [chr(c) for c in range(0x21)] + ["\x7f", "\x85", "\xa0", "\u2028"]
+        for _ in range(params["n"]):
+            s = grid.sample(rnd)
+            if rnd.random() < 0.3:      # sprinkle stripped / removed / suspicious characters
+                for _ in range(rnd.choice((1, 2, 3))):
+                    i = rnd.randrange(len(s) + 1)
+                    s = s[:i] + rnd.choice(ws) + s[i:]
             yield prog([ord(c) for c in s], rnd.random() < 0.5)
